@@ -187,6 +187,7 @@ def run(rep, tier):
                        "the term (the analysis's own, never repo code) is compared with the frozen tabulation of CPython's dis.stack_effect on a hitting "
                        "set of operands that separates the members of the formula family")
     rep.rule("R1", "for every opcode of a referenced version and every operand CPython accepts, the derived piecewise stack-effect term equals dis.stack_effect")
+    rep.rule("R3", "xdis.std: _StdApi.stack_effect calls xstack_effect(opcode, self.opc, oparg, jump); the module-level stack_effect is the default API's method")
     rep.rule("R2", "derived terms stay inside the classified family (affine pieces, bit tests, comparisons, short lookups); a term outside it is reported")
     res = pmap(work, VERSIONS)
     total = 0
@@ -198,5 +199,39 @@ def run(rep, tier):
     rep.floor("(version, opcode) pairs specialised", total, 900)
     rep.analysed("xdis.cross_dis.xstack_effect")
     rep.extra["hitting_set_size"] = len(HSET)
+    # ---------------------------------------------------------------- R3: the std API hands its own table and the caller's operand to xstack_effect
+    from ..fold import ClassRef, FuncRef, Instance
+    from ..report import AnalysisError
+    from ..sve import Spec, Sym, show
+    from ..tables import tables
+    T = tables()
+    T.F.load("xdis.std")
+    std = T.F.modules.get("xdis.std")
+    A = std.ns.get("_StdApi") if std else None
+    m = A.lookup("stack_effect") if isinstance(A, ClassRef) else None
+    if not isinstance(m, FuncRef):
+        raise AnalysisError("anchor vanished: xdis.std._StdApi.stack_effect")
+    rep.analysed(m.qualname)
+    seen = []
+
+    def hook(spec, name, fv, args, kw, node):
+        if name.endswith("xstack_effect"):
+            seen.append(([show(a) for a in args], {k: show(v) for k, v in kw.items()}))
+            return Sym("effect", "int")
+        return NotImplemented
+    me = Instance(A)
+    me.attrs["opc"] = Sym("self.opc", "obj!")
+    sp = Spec(T.F, hooks=[hook])
+    sp.run(m, [me, Sym("opcode", "int")], {"oparg": Sym("oparg", "int"), "jump": Sym("jump")})
+    want = ["opcode", "self.opc", "oparg", "jump"]
+    got = None
+    if len(seen) == 1:
+        a, kw = seen[0]
+        got = a + [kw.get(k) for k in ("opcode", "opc", "oparg", "jump")[len(a):]]
+    rep.ob("R3", m.qualname, "passes-own-table-and-operand", got == want, expected="xstack_effect(opcode, self.opc, oparg, jump)", derived=seen,
+           msg="make_std_api(v).stack_effect does not hand this API's opcode table / the caller's operand to xstack_effect: every version answers with another table's rules")
+    mod_binding = std.ns.get("stack_effect")
+    okb = getattr(mod_binding, "func", None) is not None and getattr(mod_binding.func, "qualname", "") == m.qualname
+    rep.ob("R3", "xdis.std", "module-level-stack_effect", okb or getattr(mod_binding, "qualname", "") == m.qualname, expected="the default API's stack_effect", derived=show(mod_binding)[:80])
     rep.assumptions = ["reference/stack_effect/*.json: dis.stack_effect tabulated under CPython 3.6-3.13 for oparg 0..65536, 2^17, 2^24 (jump=None)",
                        "versions without dis.stack_effect (< 3.4) and PyPy tables have no reference and are not decided"]
